@@ -23,6 +23,7 @@ import (
 	"sync"
 	"time"
 
+	"github.com/centrifugal/centrifuge/internal/dissolve"
 	"github.com/centrifugal/protocol"
 	"github.com/prometheus/client_golang/prometheus"
 	dto "github.com/prometheus/client_model/go"
@@ -168,6 +169,11 @@ type c04Eng struct {
 	stuck     string
 	panicked  bool
 	lastCmdAt time.Time
+	expectClosing bool
+	wake chan struct{}
+	why map[string]int
+	windowStart  time.Time
+	timingUnsafe bool
 
 	cmdsCoq []string
 	cmdsJS  []string
@@ -198,6 +204,7 @@ func (e *c04Eng) gate(kind c04Gk, ch string) bool {
 	p := &c04Park{kind: kind, ch: ch, gid: gid, th: th, rel: make(chan bool, 1)}
 	e.parks = append(e.parks, p)
 	e.mu.Unlock()
+	e.poke()
 	return <-p.rel
 }
 
@@ -365,7 +372,7 @@ func c04Channels(prefix string, n int) []string {
 }
 
 func c04NewEng(armed []c04Gk, nch int) (*c04Eng, error) {
-	e := &c04Eng{byGid: map[int64]*c04Thread{}, bsub: map[string]bool{}, subOpts: map[string]c04Opts{}}
+	e := &c04Eng{wake: make(chan struct{}, 1), why: map[string]int{}, byGid: map[int64]*c04Thread{}, bsub: map[string]bool{}, subOpts: map[string]c04Opts{}}
 	for _, k := range armed {
 		e.armed[k] = true
 	}
@@ -409,9 +416,21 @@ func c04NewEng(armed []c04Gk, nch int) (*c04Eng, error) {
 		e.gate(c04GkConnH, "")
 		e.log("connectcb", "")
 	})
+	// writeDisconnectOrErrorFlush starts `go c.close(...)` and then reports the command: the report tells the
+	// driver that a close goroutine exists even before it has been scheduled
+	n.OnCommandProcessed(func(c *Client, ev CommandProcessedEvent) {
+		if _, ok := disconnectFromError(ev.Error); ok && c == e.client {
+			e.mu.Lock()
+			e.expectClosing = true
+			e.mu.Unlock()
+		}
+	})
 	if err := n.Run(); err != nil {
 		return nil, err
 	}
+	// Dissolver jobs start on their own 1 s after submission. To keep their start under the driver's
+	// control the node gets a dissolver whose workers are only started by the drain command.
+	n.subDissolver = dissolve.New(numSubDissolverWorkers)
 	mk := func(user string, tr *c04Transport) (*Client, error) {
 		ctx, cancel := context.WithCancel(context.Background())
 		tr.cancel = cancel
@@ -433,6 +452,7 @@ func c04NewEng(armed []c04Gk, nch int) (*c04Eng, error) {
 		e.otherOn = append(e.otherOn, map[string]uint64{})
 	}
 	e.lastCmdAt = time.Now()
+	e.windowStart = e.lastCmdAt
 	return e, nil
 }
 
@@ -515,6 +535,7 @@ func (e *c04Eng) isQuiet(useDump bool) bool {
 			continue
 		}
 		if th.gid == 0 {
+			e.why["gid0"]++
 			e.mu.Unlock()
 			return false
 		}
@@ -523,16 +544,23 @@ func (e *c04Eng) isQuiet(useDump bool) bool {
 		}
 	}
 	closeGid := e.closeGid
+	expectClosing := e.expectClosing
 	e.mu.Unlock()
+	if expectClosing && !e.client.closing.Load() {
+		e.why["close-not-started"]++
+		return false
+	}
 	for _, g := range pendingGids {
 		s, ok := getState(g)
 		if !ok || !c04Blocked(s) {
+			e.why["thread:"+s]++
 			return false
 		}
 	}
 	// a close() started by the code itself (go c.close(...))
 	closing, closed, muFree := e.closeState()
 	if closing && !closed && muFree {
+		e.why["closing"]++
 		return false // about to take connectMu and flip
 	}
 	if closed && !muFree {
@@ -564,6 +592,7 @@ func (e *c04Eng) isQuiet(useDump bool) bool {
 		}
 		m := e.node.subLock(ch)
 		if !m.TryLock() {
+			e.why["sublock"]++
 			return false
 		}
 		m.Unlock()
@@ -571,20 +600,38 @@ func (e *c04Eng) isQuiet(useDump bool) bool {
 	return true
 }
 
+func (e *c04Eng) poke() {
+	select {
+	case e.wake <- struct{}{}:
+	default:
+	}
+}
+
 func (e *c04Eng) quiesce() {
 	deadline := time.Now().Add(8 * time.Second)
-	for i := 0; ; i++ {
-		if i < 200 {
-			if e.isQuiet(false) {
-				break
+	tm := time.NewTimer(time.Hour)
+	defer tm.Stop()
+	for {
+		if e.isQuiet(false) {
+			break
+		}
+		// wait for a thread to finish or park; after 1 ms without news look at goroutine states
+		if !tm.Stop() {
+			select {
+			case <-tm.C:
+			default:
 			}
-			runtime.Gosched()
+		}
+		tm.Reset(time.Millisecond)
+		select {
+		case <-e.wake:
 			continue
+		case <-tm.C:
 		}
 		if e.isQuiet(true) {
-			// confirm once more after yielding: a goroutine woken by the last action may not have run yet
+			// confirm after yielding: a goroutine woken by the last action may not have run yet
 			runtime.Gosched()
-			time.Sleep(200 * time.Microsecond)
+			time.Sleep(100 * time.Microsecond)
 			if e.isQuiet(true) {
 				break
 			}
@@ -597,12 +644,17 @@ func (e *c04Eng) quiesce() {
 			e.mu.Unlock()
 			break
 		}
-		time.Sleep(300 * time.Microsecond)
 	}
 	if c04Timing {
-		fmt.Printf("quiesce took %v\n", time.Since(deadline.Add(-8*time.Second)))
+		fmt.Printf("quiesce took %v reasons %v\n", time.Since(deadline.Add(-8*time.Second)), e.why)
+		e.why = map[string]int{}
 	}
 	e.lastCmdAt = time.Now()
+	// a thread blocked at the unsubscribe wait gate has a real 5 s timer that cannot be held back: the
+	// commands between two timed commands must fit well into that, otherwise the run is repeated (c04RunPlan)
+	if e.lastCmdAt.Sub(e.windowStart) > 4000*time.Millisecond {
+		e.timingUnsafe = true
+	}
 }
 
 // ---- commands ---------------------------------------------------------------------------------
@@ -630,6 +682,7 @@ func (e *c04Eng) finish(th *c04Thread) {
 		th.gid = -1
 	}
 	e.mu.Unlock()
+	e.poke()
 }
 
 func (e *c04Eng) addCmd(coq string, js string) {
@@ -791,7 +844,7 @@ func (e *c04Eng) release(p *c04Park, b bool) {
 	case e.isClosePark(p):
 		e.addCmd(vApp("CReleaseClose", vBool(b)), fmt.Sprintf("release close@%s %v", c04GkNames[p.kind], b))
 	default:
-		e.addCmd(vApp("CRelease", vN(uint64(p.th.k)), vBool(b)), fmt.Sprintf("release %d@%s %v", p.th.k, c04GkNames[p.kind], b))
+		e.addCmd(vApp("CRelease", vN(uint64(p.th.k)), c04GkNames[p.kind], vN(e.chIdx(p.ch)), vBool(b)), fmt.Sprintf("release %d@%s %v", p.th.k, c04GkNames[p.kind], b))
 	}
 	if p.kind == c04GkSubH {
 		th := p.th
@@ -868,16 +921,24 @@ func (e *c04Eng) timeout(th *c04Thread) {
 		}
 		time.Sleep(20 * time.Millisecond)
 	}
+	e.mu.Lock()
+	e.expectClosing = true
+	e.mu.Unlock()
+	e.windowStart = time.Now()
 	e.quiesce()
 }
 
 // drain waits until every dissolver job submitted so far has passed its 1 s sleep and run (or parked).
 func (e *c04Eng) drain() {
 	e.addCmd("CDrain", "drain")
-	wait := 1250*time.Millisecond - time.Since(e.lastCmdAt)
+	d := e.node.subDissolver
+	e.node.subDissolver = dissolve.New(numSubDissolverWorkers)
+	_ = d.Run()
+	wait := 1150*time.Millisecond - time.Since(e.lastCmdAt)
 	if wait > 0 {
 		time.Sleep(wait)
 	}
+	e.windowStart = time.Now()
 	e.quiesce()
 }
 
@@ -1125,7 +1186,7 @@ func (e *c04Eng) obsCoq(o c04Obs) string {
 
 // ---- cases ------------------------------------------------------------------------------------
 
-var c04Timing = true
+var c04Timing = false
 
 type c04Result struct {
 	Term    string
@@ -1164,10 +1225,23 @@ func c04Finish(e *c04Eng, drain bool) {
 	}
 }
 
-func c04RunPlan(p c04Plan, r *rand.Rand) (res c04Result) {
+func c04RunPlan(p c04Plan, seed int64) (res c04Result) {
+	for try := 0; ; try++ {
+		var unsafe bool
+		res, unsafe = c04RunPlanOnce(p, rand.New(rand.NewSource(seed)))
+		if !unsafe || try >= 5 {
+			if unsafe {
+				res.Class = "timing-unsafe"
+			}
+			return res
+		}
+	}
+}
+
+func c04RunPlanOnce(p c04Plan, r *rand.Rand) (res c04Result, unsafe bool) {
 	e, err := c04NewEng(p.Armed, p.NCh)
 	if err != nil {
-		return c04Result{Term: "", JS: map[string]any{"error": err.Error()}, Class: "setup-error"}
+		return c04Result{Term: "", JS: map[string]any{"error": err.Error()}, Class: "setup-error"}, false
 	}
 	t0 := time.Now()
 	defer func() {
@@ -1197,7 +1271,7 @@ func c04RunPlan(p c04Plan, r *rand.Rand) (res c04Result) {
 		}
 	}
 	return c04Result{Term: term, Class: p.Name, Nontriv: len(e.cmdsCoq) >= 4 && o.Stuck == "",
-		JS: map[string]any{"plan": p.Name, "key": p.Key, "armed": armed, "cmds": e.cmdsJS, "obs": o}}
+		JS: map[string]any{"plan": p.Name, "key": p.Key, "armed": armed, "cmds": e.cmdsJS, "obs": o}}, e.timingUnsafe
 }
 
 // ---- plans ------------------------------------------------------------------------------------
@@ -1296,7 +1370,7 @@ func c04RunAll(w *verifW, mk func(i int, r *rand.Rand) c04Plan) {
 	type job struct{ i int }
 	results := make([]*c04Result, w.N)
 	var wg sync.WaitGroup
-	sem := make(chan struct{}, 12)
+	sem := make(chan struct{}, 8)
 	for i := 0; i < w.N; i++ {
 		if !w.Want(i) {
 			continue
@@ -1306,7 +1380,7 @@ func c04RunAll(w *verifW, mk func(i int, r *rand.Rand) c04Plan) {
 		go func(i int) {
 			defer wg.Done()
 			defer func() { <-sem }()
-			res := c04RunPlan(mk(i, w.Rand(i)), w.Rand(i + 1<<20))
+			res := c04RunPlan(mk(i, w.Rand(i)), w.Rand(i+1<<20).Int63())
 			results[i] = &res
 		}(i)
 	}
